@@ -35,6 +35,7 @@ class Contract:
         self.props = kw.pop('props', [])           # property ids this contract serves
         self.tags = kw.pop('tags', {})             # ensures index -> list of property ids
         self.ghost = kw.pop('ghost', {})           # ghost params: name -> kind
+        self.ghost_out = kw.pop('ghost_out', {})   # ghost results: name -> (kind, witness expr over the final locals)
         self.lemmas = kw.pop('lemmas', [])
         self.note = kw.pop('note', '')
         if kw:
